@@ -95,20 +95,64 @@ def run_ssa(ck, recs, n):
             recs["fn"].append(r)      # FullName/TypeArgs records are taken from the pure-Go run
 
 
-def model_names(ck, terms, name):
-    """link_name of every entity term, evaluated by the Coq model"""
+def model_names(ck, terms, name, with_linkage=False):
+    """link_name (and linkage_of) of every entity term, evaluated by the Coq model"""
     COQ_READY.wait(1500)
     body = HDR + "".join("Eval vm_compute in link_name true %s.\n" % t for t in terms)
+    if with_linkage:
+        body += "".join("Eval vm_compute in linkage_of %s.\n" % t for t in terms)
     rc, out = ck.coq_run(body, name)
     if rc != 0:
         ck.broken.append("model-eval:" + name)
         ck.log(out[-800:])
         return None
     vals = re.findall(r"=\s*(\[[0-9;\s]*\])\s*:\s*str", out)
-    if len(vals) != len(terms):
+    links = re.findall(r"=\s*(LinkOnce|External)\s*:\s*linkage", out)
+    if len(vals) != len(terms) or (with_linkage and len(links) != len(terms)):
         ck.broken.append("model-eval-parse:" + name)
         return None
-    return ["".join(chr(int(x)) for x in re.findall(r"\d+", v)) for v in vals]
+    names = ["".join(chr(int(x)) for x in re.findall(r"\d+", v)) for v in vals]
+    return (names, links) if with_linkage else names
+
+
+WEAK = "WwVv"
+
+
+def archive_symbols(L, mod):
+    """per-package symbol tables: the archives llgo keeps in its (private) build cache,
+    <cache>/llgo/build/<arch>/<package path>/<hash>.a; the main package is not cached"""
+    base = os.path.join(L.cache, "llgo", "build")
+    out = {}
+    for root, _, fs in os.walk(base):
+        arch = [os.path.join(root, f) for f in fs if f.endswith(".a")]
+        rel = os.path.relpath(root, base).split(os.sep, 1)
+        if not arch or len(rel) < 2:
+            continue
+        pkg = rel[1]
+        if pkg == mod or pkg.startswith(mod + "/"):
+            out[pkg] = nm_defined(max(arch, key=os.path.getmtime))
+    return out
+
+
+def check_archives(ck, L, mod, replay, res):
+    """a name defined (non-local) by more than one package object must be weak in all of them"""
+    per = archive_symbols(L, mod)
+    res["archives"] = sorted(per)
+    definers = collections.defaultdict(dict)
+    for pkg, syms in per.items():
+        for n, c in syms.items():
+            if c.isupper() or c in WEAK:
+                definers[n][pkg] = c
+    shared = {n: d for n, d in definers.items() if len(d) > 1}
+    res["shared_definitions"] = len(shared)
+    res["shared_sample"] = sorted(shared)[:12]
+    bad = {n: d for n, d in shared.items() if any(c not in WEAK for c in d.values())}
+    for n in sorted(bad)[:6]:
+        ck.violation("e2e-mergeable-strong-definition",
+                     "symbol %r is defined by the objects of %d packages and is not weak in all of them: %s"
+                     % (n, len(bad[n]), ", ".join("%s:%s" % kv for kv in sorted(bad[n].items()))),
+                     dict(replay, symbol=n, definers=bad[n], all_bad=sorted(bad)[:40]))
+    return per, shared
 
 
 def nm_defined(path):
@@ -135,7 +179,7 @@ def sections(text):
 
 def run_zoo(ck, L, idx, rng, recs):
     import e2e
-    mod, files, ents, params = progs.gen_zoo(rng)
+    mod, files, ents, params = progs.gen_zoo(rng, idx)
     d = os.path.join(ck.work, "zoo%d" % idx)
     e2e.write_module(d, files, modname=mod)
     res = {"prog": "zoo%d" % idx, "params": params, "n_entities": len(ents)}
@@ -148,8 +192,17 @@ def run_zoo(ck, L, idx, rng, recs):
     out = os.path.join(ck.work, "zoo%d.llgo" % idx)
     rc, log = L.build(d, out)
     replay = {"program": "props/C14/progs.py gen_zoo", "seed": ck.seed, "params": params}
+    per, shared = check_archives(ck, L, mod, replay, res)
     if rc != 0:
-        ck.violation("e2e-zoo-build-failed", "llgo cannot build the generated multi-package program: " + log[-600:], dict(replay, log=log[-3000:]))
+        dups = sorted(set(re.findall(r"multiple definition of `([^']+)'", log) + re.findall(r"duplicate symbol: (\S+)", log)))
+        if dups:
+            ck.violation("e2e-link-fails-duplicate-definition",
+                         "the reference toolchain builds the generated program, llgo fails at link time: %d symbols are defined "
+                         "more than once as strong definitions, e.g. %s" % (len(dups), ", ".join(repr(x) for x in dups[:4])),
+                         dict(replay, symbols=dups[:40], log=log[-3000:]))
+        else:
+            ck.violation("e2e-zoo-build-failed", "llgo cannot build the generated multi-package program: " + log[-600:], dict(replay, log=log[-3000:]))
+        recs["zoo"].append(res)
         return res
     rc, _, got = L.run_bin(out)
     # (0) behaviour, section by section
@@ -163,9 +216,10 @@ def run_zoo(ck, L, idx, rng, recs):
             ck.violation(key, "section %r of the generated program: llgo prints %r, the reference toolchain prints %r" % (name, gs.get(name), wl),
                          dict(replay, section=name, llgo=gs.get(name), go=wl))
     # (1) every entity of the program is a defined symbol under the model's name
-    names = model_names(ck, [t for _, t, _ in ents], "zoo%d_names" % idx)
-    if names is None:
+    mn = model_names(ck, [t for _, t, _ in ents], "zoo%d_names" % idx, with_linkage=True)
+    if mn is None:
         return res
+    names, links = mn
     defined = nm_defined(out)
     res["defined_symbols"] = len(defined)
     missing = [(lab, n) for (lab, _, _), n in zip(ents, names) if n not in defined]
@@ -174,14 +228,22 @@ def run_zoo(ck, L, idx, rng, recs):
                      dict(replay, entity=lab, model_name=n, similar=[s for s in defined if s.split("$")[0][-12:] == n.split("$")[0][-12:]][:10]))
     res["symbols_checked"] = len(ents)
     res["symbols_missing"] = len(missing)
-    # linkage class: instances and stubs are weak, the rest strong text/data/bss
-    for (lab, _, kind), n in zip(ents, names):
-        ty = defined.get(n)
-        if ty is None:
-            continue
-        weak = ty in "WwVv"
-        if weak != (kind in ("inst", "stub")):
-            ck.violation("e2e-linkage-class", "entity %s (%s): symbol type %s" % (lab, n, ty), dict(replay, entity=lab, name=n, nm=ty))
+    # linkage class, in the binary and in every package object: weak iff the model says LinkOnce
+    res["linkonce_entities"] = links.count("LinkOnce")
+    res["linkonce_entities_in_2_objects"] = 0
+    for (lab, _, kind), n, lk in zip(ents, names, links):
+        if (lk == "LinkOnce") != (kind in ("inst", "stub")):
+            ck.correspondence_broken("C14.Model/linkage_of", "entity %s: model says %s, the program's entity list says %s" % (lab, lk, kind))
+        where = dict((pkg, syms[n]) for pkg, syms in per.items() if n in syms and (syms[n].isupper() or syms[n] in WEAK))
+        if n in defined:
+            where["(binary)"] = defined[n]
+        if lk == "LinkOnce" and len(where) > 2:
+            res["linkonce_entities_in_2_objects"] += 1
+        wrong = dict((w, c) for w, c in where.items() if (c in WEAK) != (lk == "LinkOnce"))
+        if wrong:
+            ck.violation("e2e-linkage-class", "entity %s (%s) is %s in the model, symbol class %s"
+                         % (lab, n, lk, ", ".join("%s:%s" % kv for kv in sorted(wrong.items()))),
+                         dict(replay, entity=lab, name=n, model=lk, nm=where))
     # (2) no two entities of the program share a name
     by = collections.defaultdict(list)
     for (lab, _, kind), n in zip(ents, names):
@@ -353,6 +415,10 @@ def run(ck):
         classes["e2e:entities-checked-in-nm"] += z.get("symbols_checked", 0)
         classes["e2e:sections"] += z.get("sections", 0)
         classes["e2e:sections-differing"] += len(z.get("differing", []))
+        classes["e2e:package-objects-inspected"] += len(z.get("archives", []))
+        classes["e2e:names-defined-by-2+-package-objects"] += z.get("shared_definitions", 0)
+        classes["e2e:linkonce-entities"] += z.get("linkonce_entities", 0)
+        classes["e2e:linkonce-entities-emitted-by-2+-package-objects"] += z.get("linkonce_entities_in_2_objects", 0)
         total += z.get("symbols_checked", 0) + z.get("sections", 0)
     total += len(recs["f10"])
     distinct = len(set(r["got"] for r in fn)) + len(set(r["text"] for r in ta)) + len(set(r["full"] for r in full))
@@ -365,5 +431,8 @@ def run(ck):
                       "bound wrappers, globals, init#n for the real ssa.FuncName/FullName, each compared with the Coq model by vm_compute; all entities with one real "
                       "name grouped and classified. (E) one generated multi-package program per seed (names, module path and package directories vary) built by llgo "
                       "from the working tree and by go1.24: output compared section by section, every entity's model name looked up in llvm-nm, linkage class checked, "
-                      "model names pairwise distinct; plus the F10 program (package path with a dotted last element). distinct = distinct real names")
+                      "model names pairwise distinct; the generic type G[int] / H[int,T] is put behind interfaces, taken as method value and as method expression in three packages, and the per-package "
+                      "objects (archives of llgo's private build cache, llvm-nm each) are compared: a name defined by more than one package object must be weak in all of them, every entity is weak "
+                      "exactly when the model's linkage_of says LinkOnce (binary and every object), and a link failure with multiple definition is a violation of its own; "
+                      "plus the F10 program (package path with a dotted last element). distinct = distinct real names")
     return ck.finish()
